@@ -5,9 +5,9 @@ import (
 	"fmt"
 	"grog/internal/label"
 	"grog/internal/model"
+	"grog/internal/verifhook"
 	"sort"
 	"time"
-	"grog/internal/verifhook"
 )
 
 // DirectedTargetGraph represents a directed graph of build targets.
